@@ -68,7 +68,8 @@ struct C15 : Scenario {
         p.set("kind", r.pick(std::vector<std::string>{"rf", "drift", "kicky", "kickx"}));
         // the flow clause also rides the stateful RF maps: sinusoidal RF, and the dynamic (modulated / noisy) RF map, whose
         // displacement field changes with every application (the particles of one case are successive steps of one map object)
-        if (mode == "flow" && r.chance(0.45)) p.set("kind", r.pick(std::vector<std::string>{"rfsin", "dynrf_lin", "dynrf_lin", "dynrf_sin"}));
+        if (mode == "flow" && r.chance(0.45)) p.set("kind", r.pick(std::vector<std::string>{"rfsin", "dynrf_lin", "dynrf_lin", "dynrf_sin", "fp", "fp"}));
+        if (mode == "flow") { p.setd("e1", r.loguniform(1e-3, 0.03)); if (p.get("kind") == "fp") p.seti("fptrack", r.range(1, 2)); }
         p.setd("rfamp", r.uniform(5, 40)); p.setd("v0frac", r.uniform(0, 0.3));
         p.setd("modampl", r.chance(0.7) ? r.uniform(0.005, 0.05) : 0); p.setd("phasespread", r.chance(0.5) ? r.uniform(0.002, 0.01) : 0);
         p.setd("amplspread", r.chance(0.4) ? r.uniform(0.005, 0.03) : 0); p.setd("modstep", r.uniform(0.05, 0.9));
@@ -93,6 +94,7 @@ struct C15 : Scenario {
         std::string kind = plan.get("kind");
         unsigned n = (unsigned)(40 + plan.geti("n") % 25);   // the blob needs room: 40..64 cells
         if (starts_with(kind, "dynrf")) n += 32;               // (and a wider margin where the field is only known after apply())
+        if (kind == "fp") n += 56;                             // (a broad blob needs room)
         auto it = (SourceMap::InterpolationType)plan.geti("interp");
         float sx = (float)plan.getd("shiftx"), sy = (float)plan.getd("shifty");
         api_begin(rc.workdir, plan.getu("entropy"), 0);
@@ -100,9 +102,16 @@ struct C15 : Scenario {
         auto in = mkps(n, sx, sy), out = mkps(n, sx, sy);
         std::unique_ptr<SourceMap> map;
         double slope = 0;       // |d offset / d row| in cells per cell
-        bool ykick = true, dynamic = false;
+        bool ykick = true, dynamic = false, isfp = false;
         if (kind == "rf") { float a = (float)plan.getd("angle"); map.reset(new RFKickMap(in, out, a, 5e8f, it, false, nullptr)); slope = std::tan(a); }
         else if (kind == "drift") { float a = (float)plan.getd("angle"); map.reset(new DriftMap(in, out, {a, 0.0f, 0.0f}, 1.3e9f, it, false, nullptr)); slope = a; ykick = false; }
+        else if (kind == "fp") {
+            // the damping/diffusion step with the two deterministic particle models: the charge around the particle is moved by the
+            // terms FPType selects (damping pulls towards zero energy, diffusion does not move a centre), the particle has to follow that
+            map.reset(new FokkerPlanckMap(in, out, n, n, (FokkerPlanckMap::FPType)plan.geti("fptype"), (FokkerPlanckMap::FPTracking)plan.geti("fptrack"), (float)plan.getd("e1"), (FokkerPlanckMap::DerivationType)plan.geti("deriv"), nullptr));
+            slope = plan.getd("e1");
+            isfp = true;
+        }
         else if (kind == "rfsin" || kind == "dynrf_lin" || kind == "dynrf_sin") {
             const long np = plan.geti("nparticles", 30);
             const float frf = 5e8f;
@@ -128,9 +137,12 @@ struct C15 : Scenario {
             map.reset(k);
             slope = std::fabs(slope);
         }
-        const float* force = dynamic_cast<KickMap*>(map.get())->getForce();
+        static const float zero_force[4096] = {0};
+        const float* force = isfp ? zero_force : dynamic_cast<KickMap*>(map.get())->getForce();
         Rng r(plan.getu("pseed"));
-        const double sigma = 1.5;
+        // (the local-flow particle model of the Fokker-Planck step evaluates the cell the particle sits in: with a broad blob the
+        //  diffusion current one cell off the blob's centre is below one decrement)
+        const double sigma = isfp ? 6.0 : 1.5;
         long judged = 0;
         double maxflowdev = 0;
         for (long t = 0; t < plan.geti("nparticles", 30); t++) {
@@ -155,6 +167,12 @@ struct C15 : Scenario {
             // all displacement fields used here are linear in the row index, so a symmetric blob moves exactly like its centre;
             // what remains is rounding (measured: < 5e-6 cell for interpolation orders 2-4)
             double tol = 1e-3;    // worst observed on the tree: 4.6e-6 cell
+            if (isfp) {
+                // the particle models work per cell (floor of the coordinate). Damping: a decrement or two. Diffusion (local-flow model):
+                // the current one cell off the centre of the blob, 2 (e1/cell^2) / sigma^2 cells per step
+                double cell = (double)in->getDelta(1);
+                tol = 2e-3 + 2 * plan.getd("e1") + 2.2 * plan.getd("e1") / (cell * cell) / (sigma * sigma);
+            }
             if (kind == "rfsin" || kind == "dynrf_sin") {
                 // curved field: the blob's centre lags the particle by ~ f'' sigma^2 / 2, the particle's own linear interpolation by f''/8
                 double c2 = 0;
